@@ -143,6 +143,7 @@ const (
 	where
 		key = ? and (etime is null or etime > ?)
 		and rset.rowid > ? and elem glob ?
+	order by rset.rowid
 	limit ?`
 
 	sqlUnion = `
